@@ -34,6 +34,18 @@ func BuildAnnotation(ctx *parser.AnnotationContext) core_domain.CodeAnnotation {
 	return annotation
 }
 
+// IsAnnotationArgument reports whether the annotation is written inside the arguments of another
+// annotation (`@NamedQueries({@NamedQuery(...)})`, `@Table(uniqueConstraints = @UniqueConstraint(...))`):
+// it is a value there and annotates nothing itself.
+func IsAnnotationArgument(ctx *parser.AnnotationContext) bool {
+	for node := ctx.GetParent(); node != nil; node = node.GetParent() {
+		if _, ok := node.(*parser.AnnotationContext); ok {
+			return true
+		}
+	}
+	return false
+}
+
 // BuildAnnotationForMethod collects the annotations of a member declaration. It is handed the
 // member's first modifier; the annotations may sit in any of the member's modifiers
 // (`@Test @Ignore public void f()`, `public @Test void f()`), so all of them are visited.
